@@ -65,6 +65,22 @@ Proof. exact levels_perm_pre. Qed.
 Theorem C05_levels_stable : forall prune filt d l, work l <= d ->
   levels_from prune filt (S d) l = levels_from prune filt d l.
 Proof. exact levels_from_stable. Qed.
+(* consequences for the level and post orders: same members as pre-order, all size-1 positions without predicates,
+   never the start node *)
+Theorem C05_bfs_in_iff_pre : forall prune filt n ti,
+  In ti (levels_from prune filt (size n) (direct_infos n)) <-> In ti (pre prune filt n).
+Proof. exact bfs_in_iff_pre. Qed.
+Theorem C05_bfs_visits_all : forall ct n, wf_node ct n = true ->
+  length (levels_from (fun _ => false) (fun _ => true) (size n) (direct_infos n)) = size n - 1.
+Proof. exact bfs_visits_all. Qed.
+Theorem C05_post_visits_all : forall ct n, wf_node ct n = true ->
+  length (post (fun _ => false) (fun _ => true) n) = size n - 1.
+Proof. exact post_visits_all. Qed.
+Theorem C05_no_self_post : forall prune filt n ti, In ti (post prune filt n) -> size (ti_node ti) < size n.
+Proof. exact no_self_post. Qed.
+Theorem C05_no_self_bfs : forall prune filt n ti,
+  In ti (levels_from prune filt (size n) (direct_infos n)) -> size (ti_node ti) < size n.
+Proof. exact no_self_bfs. Qed.
 (* what the machines read through the class table is what the node stores *)
 Theorem C05_infos_direct : forall ct n, wf_node ct n = true -> infos ct n = direct_infos n.
 Proof. exact infos_direct. Qed.
